@@ -56,6 +56,9 @@ class Board:
             # another processor, built from another configuration, lives and dies before this board's instances are constructed (machine.run_predecessor)
             M.run_predecessor(case['predecessor'])
         self.cores = [Core(s) for s in case['cores']] if build_cores else []
+        # a BYSTANDER: another processor constructed after this board's instances and alive for the whole run, from a configuration file that differs
+        # from theirs only in items the library reads when a processor is constructed (the number of MPU regions, the memory list)
+        self.bystanders = [M.new_arm({'config': s['bystander'], 'devices': [], 'reset': True}) for s in case['cores'] if s.get('bystander')] if build_cores else []
         self.events = sorted(enumerate(case.get('events', [])), key=lambda p: (p[1]['tick'], p[0]))
         self.ev_pos = 0
         self.schedule = case.get('schedule')
